@@ -77,6 +77,15 @@ template <class Dom> struct fuzz {
   // value semantics (C16): a copy taken before an operation on d must print the same afterwards
   bool step(Dom &d, cset &cs, int depth) {
     if (cs.empty()) return true;
+    if (getenv("QUERIES") && r.in(0, 4) == 0) {   // C16: read-only queries / normalisation between two operations change nothing
+      int q = r.in(0, 6); if (q == 5 && !getenv("DISJ")) q = 2;   // products / dis_intervals / regions end the process in to_disjunctive_... (CRAB_ERROR), see DESIGN
+      static const char *qn[] = {"normalize()", "minimize()", "to_linear_constraint_system()", "is_top()/is_bottom()", "interval query", "to_disjunctive_linear_constraint_system()", "query on a copy"};
+      log(std::string("[query] ") + qn[q]);
+      if (q == 0) d.normalize(); else if (q == 1) d.minimize(); else if (q == 2) { auto c = d.to_linear_constraint_system(); (void)c; }
+      else if (q == 3) { (void)d.is_top(); (void)d.is_bottom(); } else if (q == 4) { auto i = d[v[r.in(0, NV - 1)]]; (void)i; }
+      else if (q == 5) { auto c = d.to_disjunctive_linear_constraint_system(); (void)c; } else { Dom c(d); c.normalize(); auto l = c.to_linear_constraint_system(); (void)l; c -= v[0]; }
+      if (!check(d, cs, qn[q])) return false;
+    }
     if (depth == 0 && r.in(0, 3) == 0) {
       Dom keep(d); crab::crab_string_os b1; b1 << keep; std::string before = b1.str();
       bool ok = step_op(d, cs, depth);
